@@ -108,13 +108,110 @@ class SymSeconds:
         _unsupported('timestamp // x')
 
 
+class SymRatio:
+    """exact stand-in for `symbolic_int / positive_integer_valued_float` (e.g. ts / 1000.0): comparisons
+    with constants, int(), floor and the seconds/microsecond split are done in integer arithmetic.
+    Binary64 rounding of the quotient (<= 1 ulp, i.e. < 32 us at year 9999) is outside the model.
+    Any other operation falls back to CrossHair's real-valued symbolic float."""
+
+    def __init__(self, num, den):
+        self.num, self.den = num, den
+
+    def _bound(self, c):
+        from fractions import Fraction
+        t = Fraction(c) * self.den
+        return t, t.denominator == 1
+
+    def __lt__(self, c):
+        if isinstance(c, SymRatio):
+            return self.num * c.den < c.num * self.den
+        t, exact = self._bound(c)
+        return self.num < int(t) if exact else self.num <= t.__floor__()
+
+    def __le__(self, c):
+        if isinstance(c, SymRatio):
+            return self.num * c.den <= c.num * self.den
+        t, exact = self._bound(c)
+        return self.num <= t.__floor__()
+
+    def __gt__(self, c):
+        return not self.__le__(c)
+
+    def __ge__(self, c):
+        return not self.__lt__(c)
+
+    def __eq__(self, c):
+        if isinstance(c, SymRatio):
+            return self.num * c.den == c.num * self.den
+        t, exact = self._bound(c)
+        return exact and self.num == int(t)
+
+    def __ne__(self, c):
+        return not self.__eq__(c)
+
+    __hash__ = None
+
+    def __int__(self):
+        if self.num >= 0:
+            return self.num // self.den
+        return -((-self.num) // self.den)
+
+    __trunc__ = __int__
+
+    def __floor__(self):
+        return self.num // self.den
+
+    def __float__(self):
+        return float(self.num) / float(self.den)
+
+    def split(self):
+        secs = self.num // self.den
+        frac = self.num - secs * self.den
+        us = (frac * 1000000 + self.den // 2) // self.den
+        if us >= 1000000:
+            secs, us = secs + 1, us - 1000000
+        return secs, us
+
+    def _real(self):
+        return self.num.__float__() / float(self.den) if hasattr(self.num, 'var') else self.num / float(self.den)
+
+    def __add__(self, o): return self._real() + o
+    def __radd__(self, o): return o + self._real()
+    def __sub__(self, o): return self._real() - o
+    def __rsub__(self, o): return o - self._real()
+    def __mul__(self, o): return self._real() * o
+    def __rmul__(self, o): return o * self._real()
+    def __truediv__(self, o): return self._real() / o
+    def __floordiv__(self, o): return self._real() // o
+    def __mod__(self, o): return self._real() % o
+    def __neg__(self): return -self._real()
+    def __round__(self, nd=None): return round(self._real(), nd) if nd is not None else round(self._real())
+
+
 class SymDT(datetime.datetime):
-    def __new__(cls, wall, us, off):
+    def __new__(cls, wall, us, off, lazy_ts=None):
         from crosshair.tracers import NoTracing
         with NoTracing():
             self = datetime.datetime.__new__(cls, 2000, 1, 1)
-        self._wall, self._us, self._off = wall, us, off
+        self._w, self._u, self._off, self._lazy = wall, us, off, lazy_ts
         return self
+
+    # a value built from a symbolic *float* timestamp is split into (seconds, microsecond) only when
+    # somebody looks at it: the Int/Real mixing of that split is expensive for the solver
+    def _force(self):
+        if self._lazy is not None:
+            secs, us = _split(self._lazy)
+            self._w, self._u, self._lazy = secs + (self._off or 0), us, None
+
+    @property
+    def _wall(self):
+        self._force()
+        return self._w
+
+    @property
+    def _us(self):
+        self._force()
+        return self._u
 
     # ---- attributes pamqp (or a variant of it) may read
     @property
@@ -232,12 +329,16 @@ def _split(ts):
     """-> (whole seconds, microseconds) of a timestamp given as int / SymSeconds / symbolic float."""
     from crosshair.tracers import NoTracing
     with NoTracing():
-        kind = ('int' if isinstance(ts, int) else
-                'sym' if isinstance(ts, SymSeconds) else 'float')
+        from crosshair.libimpl.builtinslib import SymbolicInt
+        kind = ('int' if isinstance(ts, (int, SymbolicInt)) else
+                'sym' if isinstance(ts, SymSeconds) else
+                'ratio' if isinstance(ts, SymRatio) else 'float')
     if kind == 'int':
         return ts, 0
     if kind == 'sym':
         return ts.sec, ts.us
+    if kind == 'ratio':
+        return ts.split()
     secs = ts // 1
     us = round((ts - secs) * 1000000)
     secs = int(secs)
@@ -247,7 +348,19 @@ def _split(ts):
     return secs, us
 
 
+def _is_symbolic_float(ts):
+    from crosshair.tracers import NoTracing
+    with NoTracing():
+        from crosshair.libimpl.builtinslib import SymbolicInt
+        return not isinstance(ts, (int, SymbolicInt, SymSeconds))
+
+
 def _fromtimestamp(ts, tz=None):
+    if _is_symbolic_float(ts) and (tz is UTC):
+        # range check on the float itself (linear real arithmetic); split lazily
+        if ts < -62135596800.0 or ts >= 253402300800.0:
+            raise ValueError('year out of range')
+        return SymDT(None, None, 0, lazy_ts=ts)
     secs, us = _split(ts)
     if secs < -62135596800 or secs > MAX_EPOCH:
         raise ValueError('year out of range')
